@@ -552,6 +552,21 @@ def exp_template(v, base, exp_seq):
     it, limb, accs, inits, nexts = outer.args
     if it.op == "flat_map_t":
         return exp_template_flat(v, base, exp_seq)
+    if it.op == "rev" and it.args[0].op == "struct" and it.args[0].args[0] == "core::ops::Range" and len(accs) == 1:
+        # one loop over the GLOBAL bit index k = 64*len-1 .. 0 with bit k = (exp[k / 64] >> (k % 64)) & 1
+        rng = dict(zip(it.args[0].args[1], it.args[0].args[2:]))
+        n64 = Tm.intop("imul", lit(64), mk("len", exp_seq))
+        if rng.get("start") is lit(0) and (rng.get("end") is n64 or rng.get("end") is Tm.intop("imul", mk("len", exp_seq), lit(64))):
+            k = limb        # the loop item
+            bit = Tm.intop("band", Tm.intop("shr", Tm.index(exp_seq, Tm.intop("idiv", k, lit(64))), Tm.intop("irem", k, lit(64))), lit(1))
+            r = accs[0]
+            sq = mk("mul", r, r)
+            bs = Tm.bit_select(nexts[0], bit)
+            if bs is not None and bs[0] is mk("mul", sq, base) and bs[1] is sq:
+                if inits[0].op == "felem" and inits[0].args[1] == 1 and v.args[1] == 0:
+                    return True, "MSB-first square-and-multiply over the global bit index of all limbs"
+                return False, "accumulator must start at 1"
+            return False, "global-bit-index step must be r' = ITE(bit k of exp, r^2*base, r^2) with bit k = (exp[k/64] >> (k%%64)) & 1; got %s" % Tm.show(nexts[0], maxdepth=7)
     rev_outer = False
     x = it
     if x.op == "rev":
@@ -582,7 +597,8 @@ def exp_template(v, base, exp_seq):
         r = accs2[0]
         sq = mk("mul", r, r)
         t = nexts2[0]
-        if t.op == "ite" and is_bit(t.args[0]) and t.args[1] is mk("mul", sq, base) and t.args[2] is sq:
+        bs = Tm.bit_select(t, bit)
+        if bs is not None and bs[0] is mk("mul", sq, base) and bs[1] is sq:
             if inits[0].op == "felem" and inits[0].args[1] == 1:
                 return True, "MSB-first square-and-multiply over all limbs"
             return False, "accumulator must start at 1"
@@ -598,7 +614,8 @@ def exp_template(v, base, exp_seq):
             return False, "returns the running power instead of the accumulator"
         a2, s2 = accs2[ai], accs2[ii]
         t = nexts2[ai]
-        okacc = t.op == "ite" and is_bit(t.args[0]) and t.args[1] is mk("mul", a2, s2) and t.args[2] is a2
+        bs = Tm.bit_select(t, bit)
+        okacc = bs is not None and bs[0] is mk("mul", a2, s2) and bs[1] is a2
         okins = nexts2[ii] is mk("mul", s2, s2)
         if okacc and okins:
             return True, "LSB-first square-and-multiply over all limbs"
